@@ -890,7 +890,7 @@ class Engine:
                 return r
         return None
 
-    def fork_on_values(self, st, term, what, limit=64):
+    def fork_on_values(self, st, term, what, limit=256):
         """Concretise a symbolic term by case split; current instruction is re-executed in each child."""
         vals = []
         cons = list(st.pc)
